@@ -269,13 +269,13 @@ def check_doc(ctx, adoc0, classes=()):
       got = canon_isd(isd)
       try:
         exp_cached = canon_isd(ISD.from_model(doc, s, sig))
-        exp_plain = canon_isd(ISD.from_model(doc, s), drop_empty_regions=True, normalize_ruby=True)
+        exp_plain = canon_isd(ISD.from_model(doc, s), normalize_ruby=True)
       except Exception:  # pylint: disable=broad-except
         continue
       if got != exp_cached:
         ctx.violation("sequence-entry-differs", f"sequence entry at {s} is not the snapshot ISD.from_model(doc, {s}, sig)", dict(payload, t=str(s)))
-      elif canon_isd(isd, drop_empty_regions=True, normalize_ruby=True) != exp_plain:
-        ctx.violation("sequence-entry-differs-uncached", f"sequence entry at {s} differs from the uncached snapshot beyond content-less regions",
+      elif canon_isd(isd, normalize_ruby=True) != exp_plain:
+        ctx.violation("sequence-entry-differs-uncached", f"sequence entry at {s} differs from the uncached snapshot (content-less regions that paint nothing are not compared)",
                       dict(payload, t=str(s)))
   if nontrivial and len(offsets) >= 3 and len(ctx.samples) < 3:
     ctx.sample({"significant_times": [str(x) for x in offsets], "probes": len(probes), "classes": sorted(classes)})
